@@ -14,6 +14,7 @@ from __future__ import annotations
 import collections
 import itertools
 import json
+import os
 import pickle
 import random
 import sys
@@ -68,6 +69,10 @@ def symmetrised(transition):
             mapping.update(dict(zip(g, perm)))
         mapping = {k: v for k, v in mapping.items() if k != v}
         new_topo = topo.relabel_edges(mapping) if mapping else topo
+        if mapping and new_topo == topo:
+            # the exchanged particles hang on the same node(s) in the same way: the relabelled transition is this
+            # decay chain with another helicity assignment (a transition of its own), not a second chain
+            continue
         new_states = {mapping.get(i, i): s for i, s in transition.states.items()}
         key = (new_topo, tuple(sorted((i, s.particle.name, s.spin_projection) for i, s in new_states.items())))
         if key in seen:
@@ -277,6 +282,10 @@ def gen(seed, n, cases_prefix, nshards):
         c["align"] = "none"
         c["permutate"] = False
         cfgs.append(c)
+    gen_cfgs(cfgs, cases_prefix, nshards)
+
+
+def gen_cfgs(cfgs, cases_prefix, nshards):
     HEAD = "From AV Require Import Helicity.\nSet Printing Width 1000000.\nSet Printing Depth 1000000.\nOpen Scope string_scope.\n"
     all_lines = [[HEAD] for _ in range(nshards)]
     all_state = [[] for _ in range(nshards)]
@@ -406,8 +415,44 @@ def cmp(state_path, coq_out_path):
                       "failures": failures}))
 
 
+def replay(path):
+    """Re-run the correspondence for the one stored configuration; still fails iff the stored signature reproduces."""
+    import contextlib
+    import io
+    import shutil
+    import subprocess
+    import tempfile
+
+    doc = json.load(open(path))
+    cfg = doc["replay"]["case"]["cfg"]
+    want = doc["signature"].split(":")[0]
+    verif = os.path.dirname(os.path.dirname(os.path.abspath(__file__)))
+    tmp = tempfile.mkdtemp(prefix="C02_replay_", dir=os.path.join(verif, "build"))
+    try:
+        prefix = os.path.join(tmp, "Cases_C02")
+        with contextlib.redirect_stdout(io.StringIO()):
+            gen_cfgs([cfg], prefix, 1)
+        p = subprocess.run(["coqc", "-Q", os.path.join(verif, "coq", "theories"), "AV", "-Q", ".", "AVchk", "Cases_C02_0.v"],
+                           cwd=tmp, capture_output=True, text=True, timeout=1500)
+        if p.returncode != 0:
+            print(json.dumps({"still_fails": True, "fails": [["coqc", p.stderr[-300:]]]}))
+            return
+        with open(os.path.join(tmp, "out_0.txt"), "w") as f:
+            f.write(p.stdout)
+        buf = io.StringIO()
+        with contextlib.redirect_stdout(buf):
+            cmp(prefix + "_0.pkl", os.path.join(tmp, "out_0.txt"))
+        res = json.loads([l for l in buf.getvalue().splitlines() if l.startswith("{")][-1])
+        fails = [[f["signature"], f["what"][:200]] for f in res["failures"] if f["signature"] == want]
+        print(json.dumps({"still_fails": bool(fails), "fails": fails[:5]}))
+    finally:
+        shutil.rmtree(tmp, ignore_errors=True)
+
+
 if __name__ == "__main__":
-    if sys.argv[1] == "gen":
+    if sys.argv[1] == "--replay":
+        replay(sys.argv[2])
+    elif sys.argv[1] == "gen":
         gen(int(sys.argv[2]), int(sys.argv[3]), sys.argv[4], int(sys.argv[5]))
     else:
         cmp(sys.argv[2], sys.argv[3])
